@@ -132,9 +132,13 @@ def gen_sheet(rng):
     spec['own_converter'] = rng.random() < 0.25
     spec['ladder'] = rng.random() < 0.4
     spec['stop_on'] = rng.choice(["blank all", "blank all", "blank first"])
-    lead = rng.randint(0, 1) if spec['stop_on'] == "blank all" else 0
+    # an untitled column left of the table (margin notes, line numbers); with the 'blank first' rule its cells
+    # decide where the table ends although the column has no title
+    lead = rng.randint(0, 1) if spec['stop_on'] == "blank all" else (1 if rng.random() < 0.3 else 0)
     rcols = ["m%d" % i for i in range(rng.randint(1, 3))] if spec['range_kind'] != 'none' else []
-    numeric_titles = rng.random() < 0.3
+    if rcols and rng.random() < 0.15:
+        rcols[rng.randrange(len(rcols))] = "*"      # (a column of the group is titled with an asterisk: 'all others')
+    numeric_titles = rng.random() < 0.3 and "*" not in rcols
     if numeric_titles:
         rcols = [str(2020 + i) for i in range(len(rcols))]   # title cells hold numbers (per-year columns)
     kn = [k[1] for k in KNOWN] + (['Opt'] if spec['have_opt'] else [])
@@ -221,7 +225,7 @@ def gen_sheet(rng):
     if rng.random() < 0.2:
         tmap = {t: t[:2] + "\n" + t[2:] for t in ('Num', 'Name', 'Flag')}
         if not numeric_titles:
-            tmap.update({m: m[:1] + "\n" + m[1:] for m in rcols})
+            tmap.update({m: m[:1] + "\n" + m[1:] for m in rcols if len(m) > 1})
     spec['title_map'] = tmap
     title_cells = [int(t) if (numeric_titles and t in rcols) else
                    (" %s " % tmap.get(t, t) if t and rng.random() < 0.1 else tmap.get(t, t)) for t in titles]
